@@ -122,10 +122,15 @@ package db
 //@   trusted
 //@   pure
 //@   ensures seq(r) == hasher_hash(h, seq(v))
+// (hasher_name_q / hasher_q: the answers of the last Hasher.Name and BucketID.Hasher calls)
+//@ smt all (declare-ghost hasher_name_q Str)
+//@ smt all (declare-ghost hasher_q Iface)
 //@ func (h Hasher) Name() (r)
 //@   iface
 //@   trusted
 //@   pure
+//@   opt ghost:hasher_name_q r
 //@ func (bk BucketID) Hasher() (h)
 //@   trusted
 //@   pure
+//@   opt ghost:hasher_q h
